@@ -15,7 +15,7 @@ from harness.checks import c19
 PLOTS = {"standard": ["-m", "mae", "-x", "leadtime"], "pithist": ["-m", "pithist"], "reliability": ["-m", "reliability", "-r", "2"],
          "obsfcst": ["-m", "obsfcst", "-x", "leadtime"]}
 # on the multi-axes diagrams only the properties that make sense on every sub-axes are held
-MULTI_PROPS = {"obsleg", "xlim", "ylim", "xlabel", "ylabel", "labfs", "tickfs", "xrot", "yrot", "figsize", "dpi", "left", "right", "top", "bottom", "margins", "format", "pixels"}
+MULTI_PROPS = {"crop", "obsleg", "xlim", "ylim", "xlabel", "ylabel", "labfs", "tickfs", "xrot", "yrot", "figsize", "dpi", "left", "right", "top", "bottom", "margins", "format", "pixels"}
 
 
 def _figure(files, base, extra, out):
